@@ -243,6 +243,27 @@ func runC19(r *mon.Run) {
 		b, _ := new(big.Int).SetString("-1000000000000000000000000000000000000000000000", 10)
 		numDigitsCheck(t, b, "pinned")
 		t.Count("pinned")
+		// fixed: Context.Reduce(9.95) at two digits returned 10E-1; values rounded to zero kept their exponent
+		c := dec.Ctx{P: 2, Emin: -9, Emax: 9, Mode: "half_even"}
+		for _, xs := range []string{"995E-2", "-4E-12", "-12000E2"} {
+			x, _ := dec.Parse(xs)
+			d := new(apd.Decimal)
+			n, res, err := br.Context(c, 0).Reduce(d, br.ToApd(x))
+			g := br.FromApd(d)
+			t.Eval()
+			t.Count("pinned")
+			m := ModelReduce(c, x)
+			if err != nil || CheckValue(m, Outcome{Res: g, Flags: res, Raw: d}) != "" || (g.C.Sign() != 0 && new(big.Int).Mod(g.C, bTen).Sign() == 0) || (g.IsZero() && g.E != 0) {
+				t.Fail("reduce-trailing-zero", map[string]interface{}{"x": xs, "ctx": c.String(), "got": g.FullString(), "count": n})
+			}
+		}
+		// fixed: Decimal.Reduce(0.000) read its count from the destination
+		z, _ := dec.Parse("0E-3")
+		d2 := br.ToApd(dec.FromInt(12345000, 0))
+		if _, n := d2.Reduce(br.ToApd(z)); n != 0 {
+			t.Fail("reduce-depends-on-destination", map[string]interface{}{"x": "0E-3", "count": n})
+		}
+		t.Count("pinned")
 	})
 	for _, cl := range []string{"numdigits/bit-boundary", "numdigits/pow10", "numdigits/random", "numdigits-negative", "numdigits-above-128-bits",
 		"reduce/decimal", "reduce/context", "reduce/stripped", "reduce/stripped-256+", "reduce/zero", "reduce/context-rounded", "reduce/context-no-rounding"} {
